@@ -56,3 +56,7 @@ add('C05', 'pyscan', 'runtime monitoring: structural closure rules (vt/girclosur
 add('C03', 'pyscan', 'runtime monitoring with unique tokens: generated GObject-style libraries whose comment blocks carry a unique id in doc text, Since, Deprecated and an attribute; every token found on a GIR element identifies its block (attribution) and every block is compared with its target (completeness, identifier annotations)',
     'held on the executions produced: no token on an element other than the one whose C name the block carries (decoys Class:x / Class::x / Class.x / near-miss names never matched), doc/version/deprecation/stability/attributes/skip/value/default-value/setter/getter/emitter/copy-free/ref-unref/value funcs/finish-sync-async on their targets; two defects found and fixed (emitter crash, alias version)',
     'trusted: token scheme and identity function; a vfunc with an invoker may carry the invoker\'s block; rename-to/constructor/method roles judged by C04/C05', 'DESIGN.md 4 C03')
+
+add('C16', 'pyscan', 'runtime monitoring across fresh interpreter processes: the same generated library scanned under different PYTHONHASHSEED values, cache states (cold/warm XDG_CACHE_HOME) and input orders (comment blocks, source files, prototypes, typedef/struct order, includes); outputs compared byte for byte (modulo line numbers for order variants)',
+    'held on the executions produced: every variant run produced the reference bytes (hash seeds, cold and warm cache, include order) or the reference modulo line numbers (block, file, prototype and typedef order)',
+    'trusted: stand-in C parser (symbol order follows the header text); stub dependency GIRs; line numbers legitimately move with reordered input and are masked for order variants', 'DESIGN.md 4 C16')
